@@ -84,7 +84,7 @@ structure Owner where
   canEmit : Int → Bool
 
 /-- Trace events.  Observable: `enter`, `leave`, `actBegin`, `actEnd`, `bound` (the id).
-    Ghost: `unbindReq`, `occBegin`, `occEnd` and the `key`/`occ` fields. -/
+    Ghost: `unbindReq`, `fire`, `occBegin`, `occEnd` and the `key`/`occ` fields. -/
 inductive Ev
   /-- handler `h` entered for binding `key`, its `n`-th invocation, with event flags `flags`;
       `occ` is the occurrence delivering it (`0` for notifications) -/
@@ -94,6 +94,9 @@ inductive Ev
   | actEnd
   | bound (key : Nat) (id : Int) (ev : Int) (first : Bool) (flags : BFlags)
   | unbindReq (key : Nat)
+  /-- ghost: the walker of occurrence `occ` decided to deliver to binding `key` (recorded together with the
+      one-shot tombstoning, just before the call) -/
+  | fire (key : Nat) (occ : Nat)
   | occBegin (occ : Nat) (ev : Int) (wf : Bool)
   | occEnd (occ : Nat)
   deriving DecidableEq, Repr
@@ -242,9 +245,10 @@ def exec : Nat → Task → St → Res (St × Int)
           if b.ev = ev ∧ (cfg.skipTomb = true → b.id ≠ TOMBSTONE) then
             -- TICKIT_BIND_ONESHOT: flags |= TICKIT_EV_UNBIND; bind->id = TOMBSTONE; needs_delete = true
             let one := b.flags.oneshot && (!wf || cfg.wfOneshot)
-            let st1 := if one then
-                { st with list := modifyKey st.list k (fun b => { b with id := TOMBSTONE }), needsDelete := true }
-              else st
+            let st1 : St := { st with
+              list := if one then modifyKey st.list k (fun b => { b with id := TOMBSTONE }) else st.list,
+              needsDelete := one || st.needsDelete,
+              log := Ev.fire k occ :: st.log }
             let fl := if one then EV_FIRE + EV_UNBIND else EV_FIRE
             match exec fuel (.call k b.fn fl occ) st1 with
             | .ok (st2, r) =>
